@@ -7,7 +7,7 @@ From Mos Require Import model.Utf model.Lsp spec.LspSpec proofs.LspStrProofs pro
 (* ---- bookkeeping, for every history (any length, any number of files) and every abstract analysis (`world`) ---- *)
 
 (* after ANY history the analysis held by the server is the analysis of (open buffers over disk): no guard on the last event
-   is needed (didClose re-analyses, rename restores the analysis); the buffer map is exactly the spec's final_buffers *)
+   is needed (didClose re-analyses, rename only reads the analysis); the buffer map is exactly the spec's final_buffers *)
 Theorem C14_state_is_function : forall (w : world), world_ok w -> forall h s, run_w w h = Ok s ->
   (forall p, lookup (w_path_eqb w) p (files s) = final_buffers _ _ (w_path_eqb w) h p) /\
   ana s = w_analyze w (overlay (w_disk w) (final_buffers _ _ (w_path_eqb w) h)).
